@@ -751,6 +751,11 @@ def in_quantifier(case: dict) -> bool:
 def oracle_roundtrip(ctx, stream: str, case: dict, path: Path, prior: bytes | None) -> bool:
     """Real Index.write -> Index(path) on `case`; reports through ctx.oracle_fail.  Returns True when the
     statement held.  `prior`: previous contents of `path` (None = did not exist)."""
+    return _oracle_roundtrip(ctx, stream, case, path, prior)[0]
+
+
+def _oracle_roundtrip(ctx, stream: str, case: dict, path: Path, prior: bytes | None):
+    """-> (held, write status 'ok'|'err', file bytes | error kind)"""
     st, out = real_index_write(path, case)
     if st == "err":
         now = path.read_bytes() if path.exists() else None
@@ -758,11 +763,11 @@ def oracle_roundtrip(ctx, stream: str, case: dict, path: Path, prior: bytes | No
             ctx.oracle_fail(stream, case, f"Index.write raised ({out}) and replaced the existing index file "
                             f"({len(prior)} -> {0 if now is None else len(now)} bytes)", "failed-write-replaces-index")
         ctx.oracle_fail(stream, case, f"Index.write raised {out}", classify_index_case(case))
-        return False
+        return False, st, out
     r = real_index_read(path)
     if r[0] == "err":
         ctx.oracle_fail(stream, case, f"Index(path) after Index.write raised {r[1]}", classify_index_case(case))
-        return False
+        return False, st, out
     _, items, ver, exts = r
     exp = expected_flat(case)
     got = real_flat(items)
@@ -785,7 +790,7 @@ def oracle_roundtrip(ctx, stream: str, case: dict, path: Path, prior: bytes | No
             if [x for x in exp_x if x[1]] == got_x:
                 ctx.oracle_fail(stream, case, "unknown extension with an empty payload is dropped by Index.write",
                                 "unknown-ext-empty-payload")
-                return False
+                return False, st, out
             what = f"unknown extensions not kept: {got_x} != {exp_x}"
     if what is None and not case["skip_hash"]:
         raw = path.read_bytes()
@@ -793,8 +798,8 @@ def oracle_roundtrip(ctx, stream: str, case: dict, path: Path, prior: bytes | No
             what = "trailing checksum is not the SHA-1 of the preceding bytes"
     if what is not None:
         ctx.oracle_fail(stream, case, what, classify_index_case(case))
-        return False
-    return True
+        return False, st, out
+    return True, st, out
 
 
 # ------------------------------------------------------------------------------------------------
@@ -827,7 +832,7 @@ class Git:
     def ls(self, index_path: Path, repo: Path | None = None, sparse=False):
         """git ls-files --stage --debug -z -> (rc, [(name, stage, mode, sha, ctime, mtime, dev, ino, uid, gid, size, flags)], stderr)"""
         env = dict(self.env, GIT_INDEX_FILE=str(index_path))
-        cmd = ["git", "ls-files", "--stage", "--debug", "-z"] + (["--sparse"] if sparse else [])
+        cmd = ["git", "ls-files", "--stage", "--debug", "-z", "--sparse"]   # --sparse: list the entries as stored (no sparse-directory expansion)
         p = self.run(cmd, cwd=repo or self.dir, env=env, check=False)
         if p.returncode != 0:
             return p.returncode, [], p.stderr
@@ -865,6 +870,21 @@ def git_tuple_real(k: bytes, st: int, e):
             e.flags | (e.extended_flags << 16))
 
 
+def git_eligible(case: dict) -> bool:
+    """Index contents C git itself accepts: no directory-mode entries (git treats mode 040000 as a sparse-directory
+    entry and tries to expand it), only the two extended flags git knows, extension signatures git may skip
+    (an unknown signature that does not start with an upper-case letter makes git refuse the index by design)."""
+    import stat as _stat
+    for k, e in case_entries(case):
+        if _stat.S_ISDIR(e["mode"]) or e["ext"] & ~0x6000:
+            return False
+    for x in case["exts"]:
+        sig = unhx(x[0])
+        if unhx(x[1]) and not (65 <= sig[0] <= 90):
+            return False
+    return True
+
+
 def oracle_git_lists(ctx, git: Git, stream: str, case: dict, path: Path) -> bool:
     """C git lists the same entries from the index dulwich wrote at `path`."""
     rc, listed, err = git.ls(path)
@@ -884,3 +904,972 @@ def oracle_git_lists(ctx, git: Git, stream: str, case: dict, path: Path) -> bool
                             f"(name lengths {len(g[0])}/{len(k)})", cls)
             return False
     return True
+
+
+# ------------------------------------------------------------------------------------------------
+# generators (boundary-biased per the property's quantifier)
+
+U32_EDGES = [0, 1, 2, 255, 256, 65535, 65536, 2 ** 31 - 1, 2 ** 31, 2 ** 32 - 2, 2 ** 32 - 1]
+BIG = [2 ** 32, 2 ** 32 + 1, 2 ** 33, 2 ** 40 + 5, 2 ** 63, 2 ** 64 - 1]
+MODES = [0o100644, 0o100755, 0o120000, 0o160000, 0o040000, 0o100664, 0]
+NAME_LENS_EDGE = [0xFFE, 0xFFF]
+NAME_LENS_OVER = [0x1000, 0x1001, 9000]
+
+
+def g_u32(rng):
+    r = rng.random()
+    if r < 0.5:
+        return rng.choice(U32_EDGES)
+    return rng.getrandbits(rng.choice([8, 16, 31, 32]))
+
+
+def g_time(rng, trouble=False, floats=True):
+    r = rng.random()
+    if trouble:
+        return rng.choice([2 ** 32, 2 ** 33, -1, [2 ** 32, 0], [5, 2 ** 32], [-1, 0], {"f": -1.5}, {"f": 2.0 ** 32}, {"f": 1e12}])
+    if r < 0.3:
+        return g_u32(rng)
+    if r < 0.8 or not floats:
+        return [g_u32(rng), rng.choice([0, 1, 999999999, 123456789, rng.randrange(10 ** 9)])]
+    return {"f": rng.choice([0.0, 1.5, 1234567890.123456789, 2.0 ** 31, 2.0 ** 32 - 1.0, 4294967295.5,
+                             float(rng.randrange(2 ** 32)) + rng.random()])}
+
+
+def g_entry(rng, trouble=None, wild=False, floats=True) -> dict:
+    """trouble: None | 'bigsize' | 'bigtime'.  wild: also values outside the property's quantifier
+    (correspondence only): mode/uid/gid >= 2^32, flags >= 2^16, arbitrary extended flags."""
+    ext = rng.choice([0, 0, 0, 0x4000, 0x2000, 0x6000])
+    flags = rng.choice([0, 0, 0x8000]) | (rng.choice([0, 0x1000, 0x2000, 0x3000]) if rng.random() < 0.3 else 0)
+    if rng.random() < 0.15:
+        flags |= rng.getrandbits(12)           # stale name-length bits
+    if ext and rng.random() < 0.8:
+        flags |= FLAG_EXTENDED
+    e = {"ctime": g_time(rng, floats=floats), "mtime": g_time(rng, trouble == "bigtime", floats=floats),
+         "dev": rng.choice([g_u32(rng), rng.choice(BIG)]) if rng.random() < 0.3 else g_u32(rng),
+         "ino": rng.choice([g_u32(rng), rng.choice(BIG)]) if rng.random() < 0.3 else g_u32(rng),
+         "mode": rng.choice(MODES) if rng.random() < 0.9 else g_u32(rng),
+         "uid": g_u32(rng), "gid": g_u32(rng),
+         "size": rng.choice(BIG) if trouble == "bigsize" else g_u32(rng),
+         "sha": rng.randbytes(20).hex() if rng.random() < 0.8 else SHA_EMPTY, "flags": flags, "ext": ext}
+    if wild:
+        w = rng.choice(["mode", "uid", "gid", "flags16", "ext-any", "ext16", "extbit-only", "size", "none", "none"])
+        if w in ("mode", "uid", "gid", "size"):
+            e[w] = rng.choice(BIG)
+        elif w == "flags16":
+            e["flags"] |= rng.choice([0x10000, 0x20000, 1 << 40])
+        elif w == "ext-any":
+            e["ext"] = rng.getrandbits(16)
+        elif w == "ext16":
+            e["ext"] = rng.choice([0x10000, 0x14000])
+        elif w == "extbit-only":
+            e["flags"] |= FLAG_EXTENDED
+            e["ext"] = 0
+    return e
+
+
+ALPH_ASCII = b"abcxyz019._-"
+ALPH_BIN = bytes([1, 9, 10, 32, 34, 39, 42, 47, 92, 127, 128, 129, 0xc3, 0xa9, 0xfe, 0xff]) + b"ab"
+
+
+def g_comp(rng, n, binary=False):
+    a = ALPH_BIN if binary else ALPH_ASCII
+    return bytes(rng.choice(a) for _ in range(n))
+
+
+def g_names(rng, style=None):
+    """-> (style, sorted unique non-empty NUL-free names)"""
+    style = style or rng.choice(["plain", "plain", "nested", "prefix-family", "prefix-family", "long-suffix", "edge-len",
+                                 "edge-len", "over-len", "binary", "empty", "single", "many"])
+    names = set()
+    if style == "empty":
+        pass
+    elif style == "single":
+        names.add(g_comp(rng, rng.choice([1, 2, 8, 40])))
+    elif style == "plain":
+        for _ in range(rng.randint(1, 6)):
+            names.add(b"/".join(g_comp(rng, rng.randint(1, 6)) for _ in range(rng.randint(1, 3))))
+    elif style == "many":
+        for _ in range(rng.randint(10, 40)):
+            names.add(b"/".join(g_comp(rng, rng.randint(1, 3)) for _ in range(rng.randint(1, 4))))
+    elif style == "nested":
+        base = g_comp(rng, rng.randint(1, 4))
+        for suf in rng.sample([b"", b"/b", b"/b/c", b"-b", b".b", b"0", b"/", b"/b/", b"\x01", b"\xff", b"/\xff", b"//"], rng.randint(2, 7)):
+            names.add(base + suf)
+    elif style == "prefix-family":
+        L = rng.choice([0, 1, 3, 20, 100, 126, 127, 128, 129, 200, 300, 1000])
+        pre = g_comp(rng, L, binary=rng.random() < 0.3)
+        for _ in range(rng.randint(2, 6)):
+            names.add(pre + g_comp(rng, rng.randint(1, 6)))
+    elif style == "long-suffix":
+        pre = g_comp(rng, rng.choice([0, 1, 5]))
+        for _ in range(rng.randint(2, 4)):
+            names.add(pre + g_comp(rng, rng.choice([100, 120, 126, 127, 128, 129, 130, 200, 300, 16383, 16384, 16385])))
+        names.add(pre + b"z")
+    elif style == "edge-len":
+        # names of length 0xFFE / 0xFFF with a long common prefix, so that v4 strips < 128 bytes between them
+        pre = g_comp(rng, 4000, binary=rng.random() < 0.3)
+        for L in rng.sample([0xFFD, 0xFFE, 0xFFF, 0xFFF, 0xFFE], rng.randint(1, 4)):
+            names.add(pre + g_comp(rng, L - 4000))
+        if rng.random() < 0.5:
+            names.add(g_comp(rng, 3))
+    elif style == "over-len":
+        pre = g_comp(rng, 4000)
+        names.add(pre + g_comp(rng, rng.choice(NAME_LENS_OVER) - 4000))
+        for L in rng.sample([0xFFE, 0xFFF, 0x1000, 0x1001], rng.randint(0, 2)):
+            names.add(pre + g_comp(rng, L - 4000))
+        if rng.random() < 0.5:
+            names.add(g_comp(rng, 2))
+    elif style == "binary":
+        for _ in range(rng.randint(1, 6)):
+            names.add(g_comp(rng, rng.randint(1, 12), binary=True))
+    names.discard(b"")
+    return style, sorted(names)
+
+
+def g_exts(rng, trouble=None):
+    out = []
+    for _ in range(rng.choice([0, 0, 0, 1, 1, 2, 3])):
+        sig = rng.choice([b"TREE", b"REUC", b"UNTR", b"ABCD", b"ZZZZ", b"XTRA", b"AAAA"])
+        data = rng.randbytes(rng.choice([1, 1, 2, 7, 8, 19, 20, 21, 64, 300]))
+        out.append([hx(sig), hx(data)])
+    if trouble == "emptyext":
+        out.insert(rng.randint(0, len(out)), [hx(rng.choice([b"ABCD", b"EMPT"])), "-"])
+    if trouble == "lowerext":
+        out.insert(rng.randint(0, len(out)), [hx(rng.choice([b"abcd", b"Abcd", b"link", b"AB1D", b"AB D"])), hx(rng.randbytes(5))])
+    return out
+
+
+def g_index_case(rng, trouble=None, wild=False, style=None) -> tuple[str, dict]:
+    """-> (tag, case).  trouble: None|'bigsize'|'bigtime'|'emptyext'|'lowerext' (inputs on which the unchanged code is
+    already known to fail are generated on purpose, at a controlled rate, and matched by class)."""
+    style, names = g_names(rng, style)
+    items = []
+    tpos = rng.randrange(len(names)) if names else -1
+    for i, k in enumerate(names):
+        tr = trouble if (i == tpos and trouble in ("bigsize", "bigtime")) else None
+        if rng.random() < 0.25:
+            slots = [g_entry(rng, tr, wild) if rng.random() < 0.65 else None for _ in range(3)]
+            items.append([hx(k), "C"] + slots)
+        else:
+            items.append([hx(k), "N", g_entry(rng, tr, wild)])
+    rng.shuffle(items)                      # dict insertion order must not matter
+    case = {"version": rng.choice([None, 2, 2, 3, 4, 4, 4]), "skip_hash": rng.random() < 0.25, "items": items,
+            "exts": g_exts(rng, trouble)}
+    return style, case
+
+
+# ------------------------------------------------------------------------------------------------
+# streams
+
+def _py_varint_git(n: int) -> bytes:
+    """git's varint.c encode_varint (reference for the interoperability oracle; the Lean twin is gitEncodeVarint)."""
+    out = [n & 127]
+    n >>= 7
+    while n:
+        n -= 1
+        out.append(128 | (n & 127))
+        n >>= 7
+    return bytes(reversed(out))
+
+
+def _stream_varint(ctx):
+    import dulwich.index as I
+    rng = ctx.rng
+    ns = [0, 1, 126, 127, 128, 129, 255, 256, 16383, 16384, 16385, 2 ** 21 - 1, 2 ** 21, 2 ** 28, 2 ** 32 - 1, 2 ** 32, 2 ** 63, 2 ** 70]
+    ns += [rng.getrandbits(rng.choice([6, 7, 8, 13, 14, 15, 21, 22, 32, 64])) for _ in range(ctx.budget(300))]
+    outs = ctx.driver.batch([f"c11.encvarint {n}" for n in ns] + [f"c11.gitencvarint {n}" for n in ns])
+    enc, genc = outs[:len(ns)], outs[len(ns):]
+    for n, o, g in zip(ns, enc, genc):
+        real = I._encode_varint(n)
+        ctx.count("varint.enc", n, True, f"{len(real)}B")
+        if o != hx(real):
+            ctx.disagree("varint.enc", {"n": n}, o, hx(real))
+        # direct oracle: decode(encode n) = n, both decoders
+        tail = rng.randbytes(rng.choice([0, 1, 3]))
+        v, pos = I._decode_varint(real + tail, 0)
+        if (v, pos) != (n, len(real)):
+            ctx.oracle_fail("varint.roundtrip", {"kind": "varint", "n": n, "tail": hx(tail)}, f"_decode_varint(_encode_varint(n)) = {(v, pos)}")
+        # model of git's varint vs the reference transcription of varint.c (tied to C git itself in git.varint)
+        if g != hx(_py_varint_git(n)):
+            ctx.disagree("varint.gitmodel", {"n": n}, g, hx(_py_varint_git(n)), "git-reference")
+    # decoders on arbitrary bytes
+    blobs = [b"", b"\x80", b"\x80\x80", b"\xff\xff\x7f", b"\x00\x00", b"\x7f"]
+    blobs += [bytes(rng.choice([0, 1, 0x7f, 0x80, 0x81, 0xff]) for _ in range(rng.randint(0, 6))) for _ in range(ctx.budget(300))]
+    outs = ctx.driver.batch([f"c11.decvarint {hx(b)}" for b in blobs])
+    for b, o in zip(blobs, outs):
+        v, pos = I._decode_varint(b, 0)
+        real = f"{v} {hx(b[pos:])}"
+        ctx.count("varint.dec", b, True, "cont-at-end" if b and b[-1] & 0x80 and pos == len(b) else "ok")
+        if o != real:
+            ctx.disagree("varint.dec", {"data": hx(b)}, o, real)
+
+
+def g_path_pair(rng):
+    kind = rng.choice(["shared", "shared", "equal", "prefix-of", "extends", "disjoint", "empty-prev", "empty-path", "long-strip", "nul"])
+    pre = g_comp(rng, rng.choice([0, 1, 5, 50, 127, 128, 129, 300]), binary=rng.random() < 0.3)
+    a, b = g_comp(rng, rng.randint(0, 8), binary=rng.random() < 0.3), g_comp(rng, rng.randint(0, 8))
+    if kind == "shared":
+        return kind, pre + a, pre + b
+    if kind == "equal":
+        return kind, pre + a, pre + a
+    if kind == "prefix-of":
+        return kind, pre, pre + b
+    if kind == "extends":
+        return kind, pre + a, pre
+    if kind == "disjoint":
+        return kind, b"x" + a, b"y" + b
+    if kind == "empty-prev":
+        return kind, pre + a, b""
+    if kind == "empty-path":
+        return kind, b"", pre + b
+    if kind == "long-strip":
+        return kind, pre + a, pre + g_comp(rng, rng.choice([127, 128, 129, 16383, 16384, 16385, 20000]))
+    return kind, pre + b"\0" + a, pre + b
+
+
+def _real_decompress_stream(prev: bytes, data: bytes) -> str:
+    import dulwich.index as I
+    f = io.BytesIO(data)
+    try:
+        p, n = I._decompress_path_from_stream(f, prev)
+    except Exception as ex:
+        return exc_kind(ex)
+    if n != f.tell():
+        return f"bad-consumed {n} {f.tell()}"
+    return f"ok {hx(p)} {hx(data[n:])}"
+
+
+def _real_decompress(prev: bytes, data: bytes) -> str:
+    import dulwich.index as I
+    try:
+        p, n = I._decompress_path(data, 0, prev)
+    except Exception as ex:
+        return exc_kind(ex)
+    return f"ok {hx(p)} {hx(data[n:])}"
+
+
+def _stream_paths(ctx):
+    import dulwich.index as I
+    rng = ctx.rng
+    pairs = [g_path_pair(rng) for _ in range(ctx.budget(400))]
+    pairs += [("fixed", b"a/b", b"a/c"), ("fixed", b"", b""), ("fixed", b"a", b"a" * 200)]
+    outs = ctx.driver.batch([f"c11.compress {hx(p)} {hx(q)}" for _, p, q in pairs])
+    dec_lines, dec_meta = [], []
+    for (kind, path, prev), o in zip(pairs, outs):
+        real = I._compress_path(path, prev)
+        ctx.count("path.compress", (path, prev), True, kind)
+        if o != hx(real):
+            ctx.disagree("path.compress", {"path": hx(path), "prev": hx(prev)}, o, hx(real))
+        tail = rng.randbytes(rng.choice([0, 2]))
+        if b"\0" not in path:
+            # direct oracle: decompress(compress(path, prev), prev) = path, both readers
+            for nm, fn in (("stream", _real_decompress_stream), ("buffer", _real_decompress)):
+                r = fn(prev, real + tail)
+                if r != f"ok {hx(path)} {hx(tail)}":
+                    ctx.oracle_fail("path.roundtrip", {"kind": "path", "path": hx(path), "prev": hx(prev), "tail": hx(tail)},
+                                    f"{nm} decompress(compress(path, prev)) = {r[:80]}")
+        # decoders on the encoding and on mutations of it
+        for data in {real + tail, real[:-1], real[: len(real) // 2], b"\x85" + real, real[:1] + b"\x00" + real[1:],
+                     bytes([real[0] | 0x80]) + real[1:]}:
+            dec_lines.append(f"c11.decompress {hx(prev)} {hx(data)}")
+            dec_meta.append(("stream", prev, data))
+            dec_lines.append(f"c11.decompress2 {hx(prev)} {hx(data)}")
+            dec_meta.append(("buffer", prev, data))
+    outs = ctx.driver.batch(dec_lines)
+    for (nm, prev, data), o in zip(dec_meta, outs):
+        real = (_real_decompress_stream if nm == "stream" else _real_decompress)(prev, data)
+        ctx.count("path.decompress." + nm, (prev, data), True, real[:9])
+        if o != real:
+            ctx.disagree("path.decompress." + nm, {"prev": hx(prev), "data": hx(data)}, o[:200], real[:200])
+
+
+def classify_entry_case(v: int, name: bytes, e: dict) -> str | None:
+    if e["size"] >= U32:
+        return "size>=2^32"
+    if not time_in_u32(e["ctime"]) or not time_in_u32(e["mtime"]):
+        return "time-out-of-u32"
+    if len(name) >= 0x1000:
+        return "name_len>=4096"
+    return None
+
+
+def check_entry_case(ctx, stream: str, c: dict) -> str:
+    """Direct oracle on one entry case: read_cache_entry(write_cache_entry(e)) gives e back (normal form)."""
+    from dulwich.index import read_cache_entry
+    v, prev, name, e, tail = c["v"], unhx(c["prev"]), unhx(c["name"]), c["entry"], unhx(c["tail"])
+    w = real_write_entry(v, prev, e, name)
+    cls = classify_entry_case(v, name, e)
+    if not w.startswith("ok "):
+        ctx.oracle_fail(stream, c, f"write_cache_entry raised {w}", cls)
+        return w
+    data = unhx(w[3:])
+    f = io.BytesIO(data + tail)
+    try:
+        got = read_cache_entry(f, v, prev)
+    except Exception as ex:
+        ctx.oracle_fail(stream, c, f"read_cache_entry raised {exc_kind(ex)} on what write_cache_entry wrote", cls)
+        return w
+    st = (e["flags"] >> 12) & 3
+    exp = expected_entry(e, st)
+    d = None
+    if got.name != name:
+        d = f"name of length {len(got.name)} read back for a name of length {len(name)}"
+    elif f.tell() != len(data):
+        d = f"reader consumed {f.tell()} of {len(data)} bytes"
+    else:
+        d = entry_diff(exp, got)
+    if d:
+        ctx.oracle_fail(stream, c, d, cls)
+    elif v < 4 and not (len(data) % 8 == 0 and 1 <= len(data) - (62 + (2 if exp["flags"] & FLAG_EXTENDED else 0) + len(name)) <= 8):
+        ctx.oracle_fail(stream, c, f"entry of {len(data)} bytes is not NUL-padded to a multiple of 8 with 1..8 NULs", cls)
+    return w
+
+
+def entry_in_quantifier(v: int, name: bytes, e: dict) -> bool:
+    case = {"items": [[hx(name), "N", e]], "exts": []}
+    if not in_quantifier(case):
+        return False
+    if e["ext"] and v < 3:
+        return False       # documented: extended flags need version >= 3 (write_index bumps the version itself)
+    return v in (2, 3, 4)
+
+
+def _stream_entries(ctx):
+    rng = ctx.rng
+    n = ctx.budget(700)
+    cases = []
+    for i in range(n):
+        v = rng.choice([2, 2, 3, 3, 4, 4, 4, 1, 5])
+        r = rng.random()
+        if r < 0.55:
+            L = rng.choice([1, 1, 2, 3, 7, 8, 9, 10, 15, 16, 17, 100, 255, 256, rng.randint(1, 64)])
+        elif r < 0.85:
+            L = rng.choice([0xFFD, 0xFFE, 0xFFF, 0xFFF, 0xFFE])
+        elif r < 0.97:
+            L = rng.choice([0x1000, 0x1001, 0x1002, 9000, 0x1FFF, 0x2000, 0x3000, 0x4000, 0xFFFF])
+        else:
+            L = rng.choice([0, 0x10000, 0x10001])
+        binary = rng.random() < 0.3
+        name = g_comp(rng, L, binary) if L < 200 else g_comp(rng, 150, binary) + g_comp(rng, 7) * ((L - 150) // 7) + g_comp(rng, (L - 150) % 7)
+        if rng.random() < 0.04 and name:
+            p = rng.randrange(len(name))
+            name = name[:p] + b"\0" + name[p + 1:]
+        if v >= 4 or rng.random() < 0.2:
+            c = rng.choice([0, 0, 1, len(name) // 2, len(name), max(0, len(name) - 1)])
+            prev = name[:c] + g_comp(rng, rng.choice([0, 1, 5, 127, 128, 129, 300]))
+        else:
+            prev = b""
+        trouble = rng.choice([None] * 14 + ["bigsize", "bigtime"])
+        e = g_entry(rng, trouble, wild=rng.random() < 0.25)
+        tail = rng.randbytes(rng.choice([0, 0, 1, 8, 20]))
+        cases.append({"kind": "entry", "v": v, "prev": hx(prev), "name": hx(name), "entry": e, "tail": hx(tail)})
+    cdir = core.VERIF / "corpus" / PROP
+    for f in sorted(cdir.glob("entry-*.json")) if cdir.exists() else []:
+        cases.insert(0, json.loads(f.read_text()))
+    # model writer vs real writer (byte for byte), on everything the model can express
+    wl, wm = [], []
+    for c in cases:
+        if not model_negative(c["entry"]):
+            wl.append(f"c11.wentry {c['v']} {c['prev']} {tok_entry(c['entry'], unhx(c['name']))}")
+            wm.append(c)
+    outs = dict(zip(map(id, wm), ctx.driver.batch(wl)))
+    rl, rmeta = [], []
+    for c in cases:
+        v, prev, name, e = c["v"], unhx(c["prev"]), unhx(c["name"]), c["entry"]
+        inq = entry_in_quantifier(v, name, e)
+        if inq:
+            w = check_entry_case(ctx, "entry.roundtrip", c)
+        else:
+            w = real_write_entry(v, prev, e, name)
+        L = len(name)
+        tag = f"v{v}:" + ("len<0xFFE" if L < 0xFFE else hex(L) if L <= 0x1001 else "len>0x1001") + (":" + w[:10] if not w.startswith("ok") else "")
+        ctx.count("entry.write", (v, prev, name, json.dumps(e, sort_keys=True)), True, tag)
+        if id(c) in outs and outs[id(c)] != w:
+            ctx.disagree("entry.write", c, outs[id(c)][:300], w[:300])
+        if w.startswith("ok "):
+            data = unhx(w[3:]) + unhx(c["tail"])
+            variants = [("written", data)]
+            # damaged / foreign encodings for the reader correspondence
+            b = bytearray(data)
+            pos = rng.choice([60, 61, 62, 63, rng.randrange(len(b))])
+            if pos < len(b):
+                b[pos] ^= rng.choice([1, 0x10, 0x40, 0x80, 0xff])
+                variants.append(("flip", bytes(b)))
+            variants.append(("trunc", data[: rng.choice([0, 7, 8, 16, 40, 61, 62, 63, max(0, len(data) - 1), max(0, len(data) - 9)])]))
+            for vv in {v, rng.choice([2, 3, 4])}:
+                for nm, d in variants:
+                    rl.append(f"c11.rentry {vv} {hx(prev)} {hx(d)}")
+                    rmeta.append((nm, vv, prev, d))
+    outs = ctx.driver.batch(rl)
+    for (nm, vv, prev, d), o in zip(rmeta, outs):
+        real = real_read_entry(vv, prev, d)
+        ctx.count("entry.read", (vv, prev, d), True, f"v{vv}:{nm}:{real[:10] if not real.startswith('ok') else 'ok'}")
+        if o != real:
+            ctx.disagree("entry.read", {"v": vv, "prev": hx(prev), "data": hx(d)}, o[:300], real[:300])
+    ex = next((c for c in cases if len(unhx(c["name"])) == 0xFFF), cases[0])
+    ctx.sample({"stream": "entry", "v": ex["v"], "name_len": len(unhx(ex["name"])), "entry": ex["entry"]})
+
+
+def ref_parse(raw: bytes) -> str:
+    """Strict reference parse of the index grammar (no dulwich code): 'ok' | 'eof' (a read would run past the end of
+    the file, or fewer than 20 bytes are left for the trailer) | 'bad'.  Used only to *classify* undetected damage."""
+    if len(raw) < 12:
+        return "eof"
+    if raw[:4] != b"DIRC":
+        return "bad"
+    ver, n = struct.unpack(">LL", raw[4:12])
+    if ver not in (2, 3, 4):
+        return "bad"
+    pos, prev = 12, b""
+    for _ in range(n):
+        start = pos
+        if pos + 62 > len(raw):
+            return "eof"
+        flags = struct.unpack(">H", raw[pos + 60:pos + 62])[0]
+        pos += 62
+        if flags & 0x4000:
+            if pos + 2 > len(raw):
+                return "eof"
+            pos += 2
+        if ver == 4:
+            while True:
+                if pos >= len(raw):
+                    return "eof"
+                b = raw[pos]
+                pos += 1
+                if not b & 0x80:
+                    break
+            z = raw.find(b"\0", pos)
+            if z < 0:
+                return "eof"
+            pos = z + 1
+        else:
+            ln = flags & 0xFFF
+            if ln == 0xFFF:
+                z = raw.find(b"\0", pos + 0xFFF)
+                if z < 0:
+                    return "eof"
+                ln = z - pos
+            pos += ln
+            pos = start + ((pos - start + 8) & ~7)
+            if pos > len(raw):
+                return "eof"
+    while len(raw) - pos > 20:
+        if pos + 8 > len(raw):
+            return "eof"
+        sz = struct.unpack(">L", raw[pos + 4:pos + 8])[0]
+        pos += 8 + sz
+        if pos > len(raw):
+            return "eof"
+    return "ok" if len(raw) - pos == 20 else "eof"
+
+
+def check_damage_case(ctx, stream: str, c: dict, path: Path) -> str:
+    """Direct oracle: a damaged copy of an index dulwich wrote (with checksum) must not be read silently."""
+    raw = unhx(c["file"])
+    path.write_bytes(raw)
+    r = real_index_read(path)
+    if r[0] == "ok":
+        cls = "eof-before-trailer" if ref_parse(raw) == "eof" else None
+        ctx.oracle_fail(stream, c, f"damaged index ({c.get('damage')}) is read without any error: "
+                        f"{len(r[1])} entries, {len(r[3])} extensions", cls)
+    return canon_read(r)
+
+
+def damages(rng, raw: bytes, n: int):
+    """[(label, damaged bytes)]: single-byte changes everywhere, truncations, extension-length changes."""
+    out = []
+    for _ in range(n):
+        k = rng.choice(["flip", "flip", "flip", "set", "trunc", "trunc-small", "drop-byte", "ins-byte"])
+        b = bytearray(raw)
+        if k == "flip":
+            p = rng.randrange(len(b))
+            b[p] ^= 1 << rng.randrange(8)
+            out.append((f"flip@{p}", bytes(b)))
+        elif k == "set":
+            p = rng.randrange(len(b))
+            nv = rng.choice([0, 0xff, 0x41, 0x61])
+            if b[p] != nv:
+                b[p] = nv
+                out.append((f"set@{p}", bytes(b)))
+        elif k == "trunc":
+            out.append((f"trunc-{len(raw) - (p := rng.randrange(len(raw)))}", raw[:p]))
+        elif k == "trunc-small":
+            t = rng.choice([1, 2, 19, 20, 21, 22, 27, 28, 29, 40])
+            if t < len(raw):
+                out.append((f"trunc-{t}", raw[:-t]))
+        elif k == "drop-byte":
+            p = rng.randrange(len(b))
+            del b[p]
+            out.append((f"drop@{p}", bytes(b)))
+        else:
+            p = rng.randrange(len(b) + 1)
+            b[p:p] = bytes([rng.choice([0, 0x41, 0xff])])
+            out.append((f"ins@{p}", bytes(b)))
+    return out
+
+
+def _stream_index(ctx, git: Git):
+    """Whole files: model Index.write bytes vs real bytes; model reader vs real reader on written, damaged and
+    foreign files; direct oracles: real write->read, C git listing (sampled), damage detection, failed write."""
+    rng = ctx.rng
+    n = ctx.budget(260)
+    n_git = ctx.budget(70, mult=6)
+    n_dmg = 6
+    cases = []
+    cdir = core.VERIF / "corpus" / PROP
+    for f in sorted(cdir.glob("index-*.json")) if cdir.exists() else []:
+        cases.append(("corpus:" + f.stem, json.loads(f.read_text())["case"]))
+    for _ in range(n):
+        trouble = rng.choice([None] * 12 + ["bigsize", "bigtime", "emptyext", "lowerext"])
+        wild = rng.random() < 0.12
+        cases.append(g_index_case(rng, trouble, wild))
+    path = ctx.scratch / "index.c11"
+    lines, meta = [], []
+    read_jobs = []      # (label, file bytes) to compare model reader vs real reader
+    git_left = n_git
+    for tag, case in cases:
+        if any(model_negative(e) for _, e in case_entries(case)):
+            in_model = False
+        else:
+            in_model = True
+        inq = in_quantifier(case)
+        prior = path.read_bytes() if path.exists() else None
+        if inq:
+            ok, st, out = _oracle_roundtrip(ctx, "index.roundtrip", case, path, prior)
+        else:
+            ok = False
+            st, out = real_index_write(path, case)
+        real_w = "ok " + hx(out) if st == "ok" else out
+        cls = classify_index_case(case, for_git=True)
+        vtag = f"v{case['version']}" + ("+skiphash" if case["skip_hash"] else "")
+        ctx.count("index.write", json.dumps(case, sort_keys=True), True, f"{tag}:{vtag}:{'ok' if st == 'ok' else out}")
+        ctx.hist.setdefault("index.class", {})
+        ctx.hist["index.class"][str(cls)] = ctx.hist["index.class"].get(str(cls), 0) + 1
+        if in_model:
+            lines.append(model_windex_line(2 if case["skip_hash"] else 1, case))
+            meta.append(("Index.write", case, real_w))
+            lines.append(model_windex_line(0, case))
+            meta.append(("write_index_dict", case, real_write_index_dict(case)))
+        if st == "ok":
+            read_jobs.append(("written", out))
+            if inq and git_left > 0 and git_eligible(case):
+                git_left -= 1
+                oracle_git_lists(ctx, git, "git.lists", case, path)
+                ctx.count("git.lists", json.dumps(case, sort_keys=True), True, f"{tag}:{vtag}:{cls}")
+            if not case["skip_hash"] and inq and ok:
+                for label, dmg in damages(rng, out, n_dmg):
+                    c = {"kind": "damage", "damage": label, "file": hx(dmg)}
+                    got = check_damage_case(ctx, "index.damage", c, path)
+                    ctx.count("index.damage", dmg, True, label.split("@")[0].split("-")[0] + ":" + got[:12])
+                    read_jobs.append(("damaged:" + label, dmg, got))
+                path.write_bytes(out)
+    outs = ctx.driver.batch(lines)
+    for (what, case, real), o in zip(meta, outs):
+        if o != real:
+            ctx.disagree("index.write." + what, case, o[:400], real[:400])
+    # reader correspondence
+    outs = ctx.driver.batch([f"c11.rindex {hx(j[1])}" for j in read_jobs])
+    for j, o in zip(read_jobs, outs):
+        if len(j) == 3:
+            real = j[2]
+        else:
+            path.write_bytes(j[1])
+            real = canon_read(real_index_read(path))
+        ctx.count("index.read", j[1], True, j[0].split(":")[0] + ":" + (real[:12] if not real.startswith("ok") else "ok"))
+        if o != real:
+            ctx.disagree("index.read", {"kind": "read", "file": hx(j[1]), "label": j[0]}, o[:400], real[:400])
+    if cases:
+        tag, case = cases[min(len(cases) - 1, 3)]
+        ctx.sample({"stream": "index", "style": tag, "version": case["version"], "skip_hash": case["skip_hash"],
+                    "keys": [it[0][:40] for it in case["items"]][:5], "exts": [x[0] for x in case["exts"]]})
+
+
+# ---- indexes written by C git, read by dulwich (and by the model)
+
+def _blob(git: Git, repo: Path, data: bytes) -> str:
+    return git.run(["git", "hash-object", "-w", "--stdin"], cwd=repo, inp=data).stdout.decode().strip()
+
+
+def git_scenario(rng, git: Git, kind: str):
+    """Build an index with C git.  -> (description dict, repo path, sparse flag for ls-files)"""
+    repo = git.fresh()
+    desc = {"kind": "gitwrite", "scenario": kind}
+    ver = rng.choice([2, 3, 4, 4])
+    desc["index_version"] = ver
+    if kind in ("index-info", "index-info-long", "index-info-strip"):
+        style = {"index-info": rng.choice(["plain", "nested", "prefix-family", "binary", "many"]),
+                 "index-info-long": rng.choice(["edge-len", "edge-len", "over-len"]),
+                 "index-info-strip": "long-suffix"}[kind]
+        _, names = g_names(rng, style)
+        names = [n for n in names if not n.endswith(b"/") and b"//" not in n and not n.startswith(b"/")
+                 and b"\n" not in n] or [b"f"]
+        recs = []
+        for nm in names:
+            if rng.random() < 0.25:
+                for st in (1, 2, 3):
+                    if rng.random() < 0.7:
+                        recs.append(b"%s %s %d\t%s\0" % (rng.choice([b"100644", b"100755", b"120000"]), rng.randbytes(20).hex().encode(), st, nm))
+            else:
+                recs.append(b"%s %s 0\t%s\0" % (rng.choice([b"100644", b"100755", b"120000", b"160000"]), rng.randbytes(20).hex().encode(), nm))
+        p = git.run(["git", "update-index", "-z", "--index-info"], cwd=repo, inp=b"".join(recs), check=False)
+        if p.returncode != 0:
+            return None
+        desc["names"] = [hx(n[:64]) for n in names[:6]]
+        desc["name_lens"] = [len(n) for n in names]
+        listed = git.run(["git", "ls-files", "-z", "--stage"], cwd=repo).stdout.split(b"\0")[:-1]
+        stage0 = [l.split(b"\t", 1)[1] for l in listed if l.split(b"\t", 1)[0].endswith(b" 0")]
+        short = [s for s in stage0 if len(s) < 200]
+        for flag in ("--skip-worktree", "--assume-unchanged"):
+            if short and rng.random() < 0.5:
+                pick = rng.sample(short, min(len(short), rng.randint(1, 2)))
+                git.run(["git", "update-index", flag, "-z", "--stdin"], cwd=repo, inp=b"".join(s + b"\0" for s in pick))
+                desc[flag] = len(pick)
+    elif kind == "add":
+        for i in range(rng.randint(1, 5)):
+            rel = "/".join(g_comp(rng, rng.randint(1, 5)).decode() for _ in range(rng.randint(1, 3)))
+            f = repo / rel
+            try:
+                f.parent.mkdir(parents=True, exist_ok=True)
+                f.write_bytes(rng.randbytes(rng.randint(0, 50)))
+            except OSError:
+                continue
+        git.run(["git", "add", "-A"], cwd=repo)
+        if rng.random() < 0.6:
+            (repo / "ita.txt").write_bytes(b"later")
+            git.run(["git", "add", "-N", "ita.txt"], cwd=repo)
+            desc["intent_to_add"] = True
+    elif kind in ("read-tree", "read-tree-m"):
+        def mktree(vary):
+            sub = b"".join(b"100644 blob %s\t%s\0" % (_blob(git, repo, b"s%d%d" % (i, vary if i == 1 else 0)).encode(), b"s%d" % i) for i in range(3))
+            subt = git.run(["git", "mktree", "-z"], cwd=repo, inp=sub).stdout.strip()
+            top = b"".join(b"100644 blob %s\t%s\0" % (_blob(git, repo, b"t%d%d" % (i, vary if i == 0 else 0)).encode(), b"f%d" % i) for i in range(3))
+            if vary != 2:
+                top += b"100755 blob %s\tonly%d\0" % (_blob(git, repo, b"x").encode(), vary)
+            top += b"040000 tree %s\tdir\0" % subt
+            return git.run(["git", "mktree", "-z"], cwd=repo, inp=top).stdout.strip().decode()
+        if kind == "read-tree":
+            git.run(["git", "read-tree", mktree(0)], cwd=repo)
+        else:
+            git.run(["git", "read-tree", "-m", "-i", mktree(0), mktree(1), mktree(2)], cwd=repo, check=False)
+    elif kind in ("sparse", "sparse-index"):
+        for rel in ("a/1", "a/2", "b/c/3", "b/4", "top", "d/e/f/5"):
+            f = repo / rel
+            f.parent.mkdir(parents=True, exist_ok=True)
+            f.write_text(rel)
+        git.run(["git", "add", "-A"], cwd=repo)
+        git.run(["git", "commit", "-q", "-m", "x"], cwd=repo)
+        git.run(["git", "sparse-checkout", "init", "--cone"] + (["--sparse-index"] if kind == "sparse-index" else []), cwd=repo)
+        git.run(["git", "sparse-checkout", "set", rng.choice(["a", "b/c", "d"])], cwd=repo)
+    else:
+        raise core.InfraError("unknown git scenario " + kind)
+    git.run(["git", "update-index", "--index-version", str(ver)], cwd=repo)
+    return desc, repo, kind == "sparse-index"
+
+
+def classify_git_written(raw: bytes, listed) -> str | None:
+    """Class of a git-written index (properties of the file only)."""
+    if any(len(t[0]) >= 0x1000 for t in listed) and raw[4:8] != b"\0\0\0\4":
+        return "git-name_len>=4096"
+    if raw[4:8] == b"\0\0\0\4":
+        prev = b""
+        for t in listed:
+            k = t[0]
+            c = 0
+            while c < min(len(k), len(prev)) and k[c] == prev[c]:
+                c += 1
+            if len(prev) - c >= 128:
+                return "v4-strip>=128"
+            prev = k
+    # lower-case extension signature present (sdir, link)?
+    if ref_parse(raw) == "ok":
+        for sig in (b"sdir", b"link"):
+            if sig in raw[12:]:
+                return "ext-sig-not-upper"
+    return None
+
+
+def check_gitwritten_case(ctx, git: Git, stream: str, desc: dict, raw: bytes, listed) -> str:
+    """dulwich reads the index C git wrote and sees what `git ls-files --stage --debug` lists."""
+    path = ctx.scratch / "gitwritten.index"
+    path.write_bytes(raw)
+    c = dict(desc, file=hx(raw) if len(raw) < 20000 else hx(raw[:20000]) + "...")
+    cls = classify_git_written(raw, listed)
+    r = real_index_read(path)
+    if r[0] == "err":
+        ctx.oracle_fail(stream, c, f"dulwich cannot read an index written by C git: {r[1]}", cls)
+        return r[1]
+    got = [git_tuple_real(k, st, e) for k, st, e in real_flat(r[1])]
+    if got != listed:
+        diff = next(((a, b) for a, b in zip(got, listed) if a != b), (len(got), len(listed)))
+        ctx.oracle_fail(stream, c, f"dulwich reads entries that differ from what C git lists: first difference "
+                        f"{str(diff)[:300]}", cls)
+    return canon_read(r)
+
+
+def _stream_git_written(ctx, git: Git):
+    rng = ctx.rng
+    kinds = ["index-info"] * 5 + ["index-info-long"] * 3 + ["index-info-strip"] * 2 + ["add"] * 2 + ["read-tree", "read-tree-m", "sparse", "sparse-index"]
+    n = ctx.budget(32, mult=6)
+    jobs = []
+    for i in range(n):
+        kind = kinds[i % len(kinds)] if i < len(kinds) else rng.choice(kinds)
+        sc = git_scenario(rng, git, kind)
+        if sc is None:
+            continue
+        desc, repo, sparse = sc
+        idx = repo / ".git" / "index"
+        raw = idx.read_bytes()
+        rc, listed, err = git.ls(idx, repo, sparse=sparse)
+        if rc != 0:
+            raise core.InfraError(f"git cannot list its own index: {err!r}")
+        real = check_gitwritten_case(ctx, git, "git.written", desc, raw, listed)
+        ctx.count("git.written", raw, True, f"{kind}:v{int.from_bytes(raw[4:8], 'big')}:{'ok' if real.startswith('ok') else real}")
+        jobs.append((desc, raw, real))
+        shutil.rmtree(repo, ignore_errors=True)
+    outs = ctx.driver.batch([f"c11.rindex {hx(raw)}" for _, raw, _ in jobs])
+    for (desc, raw, real), o in zip(jobs, outs):
+        ctx.count("git.written.model", raw, True, desc["scenario"])
+        if o != real:
+            ctx.disagree("git.written.model", dict(desc, file=hx(raw)[:40000]), o[:400], real[:400])
+    ctx.extra_cov["git_calls"] = git.calls
+
+
+def _stream_git_varint(ctx, git: Git):
+    """Ties the model's `gitEncodeVarint` to C git itself: a v4 index whose second entry strips n bytes, written with
+    the model's encoding of n, must be listed by C git with the intended names."""
+    rng = ctx.rng
+    ns = [0, 1, 127, 128, 129, 300, 16383, 16384, 16511, 16512, 16513, 20000]
+    ns = ns[:] if ctx.thorough else rng.sample(ns, 5) + [128]
+    outs = ctx.driver.batch([f"c11.gitencvarint {n}" for n in ns])
+    path = ctx.scratch / "varint.index"
+    for n, o in zip(ns, outs):
+        first = b"a" * (n + 1)
+        second = b"ab"                          # common prefix "a", strip n bytes, suffix "b"
+        fixed = struct.pack(">LLLLLLLLLL20s", 0, 0, 0, 0, 0, 0, 0o100644, 0, 0, 0, bytes.fromhex(SHA_EMPTY))
+        body = b"DIRC" + struct.pack(">LL", 4, 2)
+        body += fixed + struct.pack(">H", min(len(first), 0xFFF)) + b"\0" + first + b"\0"
+        body += fixed + struct.pack(">H", len(second)) + unhx(o) + b"b\0"
+        path.write_bytes(body + hashlib.sha1(body).digest())
+        rc, listed, err = git.ls(path)
+        ctx.count("git.varint", n, True, f"{len(unhx(o))}B")
+        if rc != 0 or [t[0] for t in listed] != [first, second]:
+            ctx.disagree("git.varint", {"n": n, "model": o}, o, f"C git: rc={rc} {[t[0][:8] for t in listed]} {err[:80]!r}", "cgit")
+
+
+def _stream_sha1(ctx):
+    rng = ctx.rng
+    msgs = [b"", b"abc", b"a" * 55, b"a" * 56, b"a" * 63, b"a" * 64, b"a" * 65, b"a" * 119, b"a" * 120]
+    msgs += [rng.randbytes(rng.randint(0, 300)) for _ in range(ctx.budget(40, mult=3))]
+    outs = ctx.driver.batch([f"c11.sha1 {hx(m)}" for m in msgs])
+    for m, o in zip(msgs, outs):
+        ctx.count("sha1", m, True, None)
+        if o != hashlib.sha1(m).hexdigest():
+            ctx.disagree("sha1", {"msg": hx(m)}, o, hashlib.sha1(m).hexdigest(), "hashlib")
+
+
+class _St:
+    pass
+
+
+def _stream_fromstat(ctx):
+    """index_entry_from_stat: nothing is narrowed (field widths), then the entry meets write_cache_entry."""
+    from dulwich.index import index_entry_from_stat
+    rng = ctx.rng
+    lines, reals, cases = [], [], []
+    for _ in range(ctx.budget(120)):
+        s = _St()
+        s.st_mode = rng.choice([0o100644, 0o100755, 0o120777, 0o040755])
+        s.st_ino = rng.choice(U32_EDGES + BIG)
+        s.st_dev = rng.choice(U32_EDGES + BIG)
+        s.st_uid, s.st_gid = g_u32(rng), g_u32(rng)
+        s.st_size = rng.choice(U32_EDGES + BIG) if rng.random() < 0.5 else g_u32(rng)
+        s.st_ctime_ns = rng.choice([0, 1, 999999999, 10 ** 9, rng.getrandbits(60), (2 ** 32 - 1) * 10 ** 9 + 999999999, 2 ** 32 * 10 ** 9])
+        s.st_mtime_ns = rng.choice([0, 1, 10 ** 9 - 1, rng.getrandbits(61)])
+        s.st_ctime, s.st_mtime = s.st_ctime_ns / 1e9, s.st_mtime_ns / 1e9
+        mode = rng.choice([None, 0o100644, 0o160000])
+        e = index_entry_from_stat(s, SHA_EMPTY.encode(), mode)
+        from dulwich.index import cleanup_mode
+        m = cleanup_mode(s.st_mode) if mode is None else mode
+        lines.append(f"c11.fromstat {s.st_ctime_ns} {s.st_mtime_ns} {s.st_dev} {s.st_ino} {m} {s.st_uid} {s.st_gid} {s.st_size}")
+        reals.append(canon_real_entry(e, b"").replace(SHA_EMPTY, "-"))
+        cases.append(vars(s))
+    outs = ctx.driver.batch(lines)
+    for c, o, r in zip(cases, outs, reals):
+        ctx.count("fromstat", json.dumps(c, sort_keys=True), True, "size>=2^32" if c["st_size"] >= U32 else "u32")
+        if o != r:
+            ctx.disagree("fromstat", c, o, r)
+
+
+def _run_corpus_witnesses(ctx, git: Git):
+    """Witnesses of the known findings: replayed against the real code on every run."""
+    cdir = core.VERIF / "corpus" / PROP
+    if not cdir.exists():
+        return
+    path = ctx.scratch / "corpus.index"
+    for f in sorted(cdir.glob("*.json")):
+        w = json.loads(f.read_text())
+        kind = w.get("kind")
+        if kind == "index":
+            if path.exists():
+                path.unlink()
+            if w.get("prior"):
+                path.write_bytes(unhx(w["prior"]))
+            ok = oracle_roundtrip(ctx, w.get("stream", "index.roundtrip"), w["case"], path, unhx(w["prior"]) if w.get("prior") else None)
+            if w.get("git") and path.exists():
+                oracle_git_lists(ctx, git, "git.lists", w["case"], path)
+        elif kind == "damage":
+            check_damage_case(ctx, "index.damage", w, path)
+        elif kind == "gitwritten":
+            raw = unhx(w["file"])
+            path.write_bytes(raw)
+            rc, listed, err = git.ls(path, sparse=w.get("sparse", False))
+            if rc == 0:
+                check_gitwritten_case(ctx, git, "git.written", {"kind": "gitwritten", "scenario": w.get("scenario")}, raw, listed)
+        elif kind == "entry":
+            pass    # replayed at the head of the entry stream
+        ctx.count("corpus", f.stem, True, kind)
+
+
+def run(ctx: core.Ctx):
+    ctx.assumptions += [
+        "Python ints are modelled as Nat: negative field values are outside the model (the direct oracle still runs them)",
+        "float times: CPython's divmod/int conversion in write_cache_time is outside the model; the model receives the "
+        "(sec, nsec) pair CPython computes, the oracle checks it against floor/frac independently",
+        "object ids are raw 20-byte strings in the model (hex_to_sha / sha_to_hex not modelled)",
+        "SHA-1 is a parameter H of the theorems; the driver instantiates it with a Lean SHA-1 compared to hashlib each run",
+        "C git 2.39.5 is the third party; git's varint (varint.c) is modelled and tied to C git by the git.varint stream",
+    ]
+    git = Git(ctx)
+    _stream_sha1(ctx)
+    _stream_varint(ctx)
+    _stream_paths(ctx)
+    _run_corpus_witnesses(ctx, git)
+    _stream_entries(ctx)
+    _stream_fromstat(ctx)
+    _stream_index(ctx, git)
+    _stream_git_varint(ctx, git)
+    _stream_git_written(ctx, git)
+    ctx.extra_cov["c_git_comparisons"] = ctx.streams.get("git.lists", 0) + ctx.streams.get("git.written", 0) + ctx.streams.get("git.varint", 0)
+    ctx.extra_cov["variants"] = ["pure Python index.py (no Rust code on this path)", "C git 2.39.5"]
+
+
+def search(ctx: core.Ctx):
+    """Failing-input search after a broken obligation / correspondence: the direct oracles, harder, around the
+    disagreeing cases and on a boosted fresh sample."""
+    rng = ctx.rng
+    git = Git(ctx)
+    path = ctx.scratch / "search.index"
+    # 1. neighbourhood of disagreeing cases
+    for d in ctx.disagreements[:50]:
+        c = d["case"]
+        if isinstance(c, dict) and "items" in c and in_quantifier(c):
+            if path.exists():
+                path.unlink()
+            if oracle_roundtrip(ctx, "search.roundtrip", c, path, None) and git_eligible(c):
+                oracle_git_lists(ctx, git, "search.git", c, path)
+        elif isinstance(c, dict) and c.get("kind") == "entry" and entry_in_quantifier(c["v"], unhx(c["name"]), c["entry"]):
+            check_entry_case(ctx, "search.entry", c)
+        elif isinstance(c, dict) and "n" in c and isinstance(c["n"], int):
+            import dulwich.index as I
+            for n in range(max(0, c["n"] - 3), c["n"] + 4):
+                enc = I._encode_varint(n)
+                if I._decode_varint(enc, 0) != (n, len(enc)):
+                    ctx.oracle_fail("search.varint", {"kind": "varint", "n": n, "tail": "-"}, "varint round trip fails")
+        elif isinstance(c, dict) and "path" in c and "prev" in c:
+            p, q = unhx(c["path"]), unhx(c["prev"])
+            import dulwich.index as I
+            if b"\0" not in p:
+                r = _real_decompress_stream(q, I._compress_path(p, q))
+                if r != f"ok {hx(p)} -":
+                    ctx.oracle_fail("search.path", {"kind": "path", "path": hx(p), "prev": hx(q), "tail": "-"}, f"path round trip fails: {r[:80]}")
+        elif isinstance(c, dict) and c.get("kind") == "read" and "file" in c:
+            # reader disagreement on a file: is it damage that goes undetected, or a good file that is rejected?
+            raw = unhx(c["file"])
+            check_damage_case(ctx, "search.damage", {"kind": "damage", "damage": c.get("label"), "file": c["file"]}, path) \
+                if c.get("label", "").startswith("damaged") else None
+        if ctx.oracle_failures:
+            return
+    # 2. boosted fresh sample of every direct oracle
+    for _ in range(ctx.budget(300)):
+        tag, case = g_index_case(rng, None, False)
+        if not in_quantifier(case):
+            continue
+        if path.exists():
+            path.unlink()
+        if oracle_roundtrip(ctx, "search.roundtrip", case, path, None):
+            if rng.random() < 0.4 and classify_index_case(case, True) is None and git_eligible(case):
+                oracle_git_lists(ctx, git, "search.git", case, path)
+            if not case["skip_hash"]:
+                raw = path.read_bytes()
+                for label, dmg in damages(rng, raw, 8):
+                    check_damage_case(ctx, "search.damage", {"kind": "damage", "damage": label, "file": hx(dmg)}, path)
+        if ctx.oracle_failures:
+            return
+    for _ in range(ctx.budget(2000)):
+        v = rng.choice([2, 3, 4])
+        L = rng.choice([1, 2, 7, 8, 9, 100, 0xFFE, 0xFFF])
+        name = g_comp(rng, L)
+        prev = name[: rng.randint(0, len(name))] + g_comp(rng, rng.choice([0, 1, 100, 130]))
+        e = g_entry(rng, None, False)
+        if entry_in_quantifier(v, name, e):
+            check_entry_case(ctx, "search.entry", {"kind": "entry", "v": v, "prev": hx(prev if v == 4 else b""), "name": hx(name), "entry": e, "tail": "-"})
+        if ctx.oracle_failures:
+            return
+    for _ in range(ctx.budget(12)):
+        sc = git_scenario(rng, git, rng.choice(["index-info", "index-info-long", "add", "read-tree-m", "sparse"]))
+        if sc is None:
+            continue
+        desc, repo, sparse = sc
+        idx = repo / ".git" / "index"
+        rc, listed, err = git.ls(idx, repo, sparse=sparse)
+        if rc == 0:
+            check_gitwritten_case(ctx, git, "search.gitwritten", desc, idx.read_bytes(), listed)
+
+
+def replay(ctx: core.Ctx, data: dict) -> int:
+    c = data.get("case", {})
+    kind = c.get("kind") or ("index" if "items" in c else None)
+    git = Git(ctx)
+    path = ctx.scratch / "replay.index"
+    if kind == "index" or "items" in c:
+        ok = oracle_roundtrip(ctx, "replay", c, path, None)
+        print("replay: real Index.write -> Index(path):", "holds" if ok else "FAILS")
+        if ok and in_quantifier(c) and git_eligible(c):
+            ok2 = oracle_git_lists(ctx, git, "replay", c, path)
+            print("replay: C git lists the same entries:", "holds" if ok2 else "FAILS")
+    elif kind == "entry":
+        print("replay entry:", check_entry_case(ctx, "replay", c)[:120])
+    elif kind == "damage":
+        print("replay damage:", check_damage_case(ctx, "replay", c, path)[:200])
+    elif kind in ("gitwrite", "gitwritten") and "file" in c and not c["file"].endswith("..."):
+        raw = unhx(c["file"])
+        path.write_bytes(raw)
+        rc, listed, err = git.ls(path, sparse=c.get("scenario") == "sparse-index" or c.get("sparse", False))
+        print("replay: git lists", len(listed), "entries rc", rc)
+        if rc == 0:
+            print("replay git-written:", check_gitwritten_case(ctx, git, "replay", c, raw, listed)[:200])
+    elif kind == "varint":
+        import dulwich.index as I
+        enc = I._encode_varint(c["n"])
+        if I._decode_varint(enc + unhx(c.get("tail", "-")), 0) != (c["n"], len(enc)):
+            ctx.oracle_fail("replay", c, "varint round trip fails")
+    elif kind == "path":
+        import dulwich.index as I
+        p, q, t = unhx(c["path"]), unhx(c["prev"]), unhx(c.get("tail", "-"))
+        r = _real_decompress_stream(q, I._compress_path(p, q) + t)
+        if r != f"ok {hx(p)} {hx(t)}":
+            ctx.oracle_fail("replay", c, f"path round trip fails: {r[:80]}")
+    else:
+        print("replay: this file does not carry a replayable failing input (broken obligation); re-run ./check C11")
+        return 1
+    for f in ctx.oracle_failures:
+        print("  fails:", f["what"][:300], "| class:", f["class"])
+    if ctx.oracle_failures:
+        print(f"VIOLATION property={PROP} replay={data.get('_path', '<replayed>')}")
+        return 1
+    if ctx.known_hit:
+        print("replay: fails only in ways recorded as known findings:", ctx.known_hit)
+        return 0
+    print("replay: property holds on this case")
+    return 0
